@@ -231,10 +231,11 @@ def minimise(prop, sc, oracle, known, pid, key=None, budget_runs=300, budget_s=6
     return cur, runs
 
 
-def write_replay(pid, sc, violation, digest):
+def write_replay(pid, sc, violation, digest, found=None):
     os.makedirs(REPLAYS, exist_ok=True)
     body = {
         "property": pid,
+        "found_by": found or {},
         "oracle": violation["oracle"],
         "message": violation["message"],
         "sig": violation["sig"],
@@ -321,7 +322,8 @@ def run_check(pid, tier, seed, workers=None, n_indices=None, wall_cap=None):
         if got is None:  # should not happen: execution is deterministic
             raise HarnessError(f"minimised scenario for {v['oracle']} does not fail on re-execution")
         res_min, v_min = got
-        path = write_replay(pid, sc_min, v_min.to_json(), res_min.log.digest())
+        found = {"VERIF_SEED": seed, "tier": tier, "run_index": fl["index"], "note": "the scenario below is the minimised one; run_index regenerates the original"}
+        path = write_replay(pid, sc_min, v_min.to_json(), res_min.log.digest(), found)
         ok, out = confirm_in_fresh_process(path)
         if not ok:
             raise HarnessError(f"replay {path} did not reproduce in a fresh interpreter:\n{out[-2000:]}")
